@@ -127,3 +127,36 @@ def _dom_paths(tier, seed):
             yield case(lambda: sf.read(reduce=True), full, "read(reduce=True)")
             sf.close()
             os.unlink(fname)
+    # tables longer than any block a reader might buffer: slices with every small step, from either end; row lists; columns
+    import random
+    rng = random.Random(seed * 7 + 3)
+    for di, (delim, n) in enumerate([(None, 3000), (None, 70001), (",", 2500)]):
+        full = _table(n)
+        fname = os.path.join(scratch, "paths-long-%d.rec" % di)
+        sfile.write(fname, full, delim=delim)
+        sf = sfile.SFile(fname)
+        tag = "delim=%r n=%d " % (delim, n)
+
+        def case(f, exp, key, err=False):
+            return dict(call=(lambda f=f, exp=exp: (f(), exp)), args=[], ghost=dict(expect_error=err), key=tag + key)
+        steps = list(range(1, 21)) + [33, 100, 1023, 1024, 1025]
+        if tier == "quick":
+            steps = rng.sample(steps[:16], 9 if di == 0 else 4) + rng.sample(steps[16:], 2)
+        for c in steps:
+            a = rng.choice([None, 0, 1, rng.randrange(0, 40), -rng.randrange(n // 2, n), rng.randrange(0, n // 3)])
+            b = rng.choice([None, -1, n, n + 5, -rng.randrange(1, 30), rng.randrange(2 * n // 3, n)])
+            for sl in (slice(a, b, c), slice(None, None, c)):
+                yield case(lambda sl=sl: sf[sl], full[sl], "sf[%r]" % (sl,))
+            sl = slice(a, b, c)
+            yield case(lambda sl=sl: sf.read(rows=sl) if False else sf["b"][sl], full["b"][sl], "sf['b'][%r]" % (sl,))
+            yield case(lambda sl=sl: sf[["d", "a"]][sl], full[["a", "d"]][sl], "sf[['d','a']][%r]" % (sl,))
+        for _ in range(3 if tier == "quick" else 12):
+            rows = sorted(rng.sample(range(n), rng.choice([1, 7, 1500])))
+            exp = full[np.array(rows)]
+            yield case(lambda rows=rows: sf.read(rows=rows), exp, "read(rows=<%d rows from %d>)" % (len(rows), rows[0]))
+            yield case(lambda rows=rows: sf.read(rows=rows, columns=["c", "d"]), exp[["c", "d"]],
+                       "read(rows=<%d rows from %d>, columns=c,d)" % (len(rows), rows[0]))
+        yield case(lambda: sf.read(), full, "read()")
+        yield case(lambda: sf.read(columns="d"), full["d"], "read(columns='d')")
+        sf.close()
+        os.unlink(fname)
